@@ -174,6 +174,10 @@ def directed():
     # a node that asks for "now" forever, a node in the past, boundary times
     out.append("d1=n0 d2=0|N0;N1;N2;a0_1;a0_2;C0@0;C0@0;C0@1;C0@%d" % (NEVER - 1))
     out.append("g1=%d d1=N|N0;N1;a0_1;C0@0;C0@%d;C0@%d" % (NEVER - 1, NEVER - 2, NEVER - 1))
+    # the end of time: now == MUSCLE_TIME_NEVER (never-requests are "<= now"; only nodes reachable through scheduled lists fire)
+    out.append("g1=N g2=5 g3=N g4=%d d1=N d2=N d3=N d4=N|N0;N1;N2;N3;N4;a0_1;a0_3;a1_2;a3_4;C0@N;C0@N;i1;C0@N" % (NEVER - 1))
+    out.append("g0=N g1=N d0=N d1=N|N0;N1;a0_1;C0@N;C0@N")
+    out.append("g0=7 g1=N,N g2=N,9 d0=N|N0;N1;N2;a0_1;a1_2;G0@3;P0@N;C0@N;G0@N;P0@N")
     # the root is itself a timer; lone root; root detaching its children in its own Pulse
     out.append("g0=3,6,N p0=c0|N0;N1;N2;a0_1;a0_2;C0@0;C0@3;C0@4;C0@6;C0@7")
     out.append("g0=3 d0=q3|N0;C0@0;C0@3;C0@6;C0@7;i0;C0@8;j0;C0@9")
